@@ -143,8 +143,10 @@ func checkState(v *View, readded map[int]bool) []violation {
 	return out
 }
 
-// transition checks for one executed operation (class 0 = accepted)
-func checkStep(op Op, class int, pre, post *View) []violation {
+// transition checks for one executed operation (class 0 = accepted).  joined[a]: the height at which the
+// monitor saw oracle a come online last (bond, or add-delegate of an offline oracle) — its own notion of
+// "joined", not the StartHeight field of the record.
+func checkStep(op Op, class int, pre, post *View, joined map[int]int64) []violation {
 	var out []violation
 	fail := func(sig, f string, a ...interface{}) { out = append(out, violation{sig, fmt.Sprintf(f, a...)}) }
 	sub := func(x, y *big.Int) *big.Int { return new(big.Int).Sub(x, y) }
@@ -185,8 +187,10 @@ func checkStep(op Op, class int, pre, post *View) []violation {
 				fail("C13:bond:accounting", "oracle %d: add-delegate %s moved a different amount out of the oracle account", op.A, amt)
 			}
 			dDel := sub(post.delegated(op.A), pre.delegated(op.A))
-			if new(big.Int).Add(dDel, pen).Cmp(amt) != 0 || sub(r1.Amount, r0.Amount).Cmp(dDel) != 0 {
-				fail("C13:slash:charge", "oracle %d: add-delegate %s: delegated %s, penalty due %s, recorded stake grew by %s", op.A, amt, dDel, pen, sub(r1.Amount, r0.Amount))
+			// what left the account = what was delegated + the penalty due; that the recorded stake equals the
+			// delegation afterwards is the state check (checkState) for the now online oracle
+			if new(big.Int).Add(dDel, pen).Cmp(amt) != 0 {
+				fail("C13:slash:charge", "oracle %d: add-delegate %s: delegated %s, penalty due %s", op.A, amt, dDel, pen)
 			}
 			if r1.Slash != 0 || !r1.Online {
 				fail("C13:slash:count", "oracle %d: slash count not reset / not online after paying", op.A)
@@ -249,16 +253,20 @@ func checkStep(op Op, class int, pre, post *View) []violation {
 			continue
 		}
 		justified := false
+		start, seen := joined[r0.A]
+		if !seen {
+			start = r0.Start
+		}
 		for _, objs := range [][]objView{pre.Sets, pre.Batches, pre.Calls} {
 			for _, x := range objs {
-				if r0.Start <= x.H && !hasInt(x.Conf, r0.E) && pre.Height-x.H >= pre.Window {
+				if start <= x.H && !hasInt(x.Conf, r0.E) && pre.Height-x.H >= pre.Window {
 					justified = true
 				}
 			}
 		}
 		if !justified {
-			fail("C13:slash:unjustified", "oracle %d (start %d, external %d) penalised at height %d although it confirmed every oracle set / batch / bridge call created since it joined that is older than the window %d",
-				r0.A, r0.Start, r0.E, pre.Height, pre.Window)
+			fail("C13:slash:unjustified", "oracle %d (joined %d, external %d) penalised at height %d although it confirmed every oracle set / batch / bridge call created since it joined that is older than the window %d",
+				r0.A, start, r0.E, pre.Height, pre.Window)
 		}
 	}
 	return out
